@@ -159,11 +159,9 @@ func c02Boundary(c *cluster, final bool) {
 			continue
 		}
 		v := view{n: n, log: log, hw: hw, newest: newest, leading: p.isLeading && p.Leader == n.id, epoch: p.LeaderEpoch}
-		for _, id := range p.Isr {
-			if id == n.id {
-				v.inISR = true
-			}
-		}
+		// (in-sync according to the committed metadata, not to what this server has applied so far)
+		_, committedISR := c.raftView(c.h.cluster.CommitIndex())
+		v.inISR = committedISR[n.id]
 		views = append(views, v)
 		if h.verbose {
 			var offs []int64
